@@ -24,7 +24,87 @@ def load_variants() -> List[dict]:
         return json.load(fh)["variants"]
 
 
+def apply_unified_diff(diff_text: str) -> Optional[Dict[str, str]]:
+    """Apply a unified diff (git format) to the current files of /repo in memory; None if a hunk does not fit."""
+    out: Dict[str, str] = {}
+    cur = None
+    lines: List[str] = []
+    hunks: List[Tuple[int, List[str]]] = []
+
+    def flush() -> bool:
+        if cur is None:
+            return True
+        with open(os.path.join(REPO, cur), encoding="utf-8") as fh:
+            src = fh.read().split("\n")
+        offset = 0
+        for start, body in hunks:
+            old = [ln[1:] for ln in body if ln[:1] in (" ", "-")]
+            new = [ln[1:] for ln in body if ln[:1] in (" ", "+")]
+            pos = start - 1 + offset
+            found = None
+            for d in [0] + [x for k in range(1, 80) for x in (k, -k)]:
+                q = pos + d
+                if 0 <= q <= len(src) - len(old) and src[q:q + len(old)] == old:
+                    found = q
+                    break
+            if found is None:
+                return False
+            src[found:found + len(old)] = new
+            offset += len(new) - len(old) + (found - pos)
+        out[cur] = "\n".join(src)
+        return True
+
+    import re as _re
+
+    rows = diff_text.split("\n")
+    i = 0
+    while i < len(rows):
+        ln = rows[i]
+        if ln.startswith("+++ "):
+            if not flush():
+                return None
+            hunks = []
+            pth = ln[4:].strip()
+            cur = pth[2:] if pth.startswith("b/") else pth
+            i += 1
+            continue
+        m = _re.match(r"@@ -(\d+)(?:,(\d+))? \+(\d+)(?:,(\d+))? @@", ln)
+        if m and cur is not None:
+            n_old = int(m.group(2)) if m.group(2) is not None else 1
+            n_new = int(m.group(4)) if m.group(4) is not None else 1
+            body: List[str] = []
+            i += 1
+            while i < len(rows) and (n_old > 0 or n_new > 0):
+                r = rows[i]
+                if r.startswith("\\"):
+                    i += 1
+                    continue
+                tag = r[:1] if r else " "
+                if r == "":
+                    r = " "
+                if tag == " ":
+                    n_old -= 1
+                    n_new -= 1
+                elif tag == "-":
+                    n_old -= 1
+                elif tag == "+":
+                    n_new -= 1
+                else:
+                    break
+                body.append(r)
+                i += 1
+            hunks.append((int(m.group(1)), body))
+            continue
+        i += 1
+    if not flush():
+        return None
+    return out
+
+
 def apply_variant(v: dict) -> Optional[Dict[str, str]]:
+    if "patch" in v:
+        with open(os.path.join(os.path.dirname(HERE), v["patch"]), encoding="utf-8") as fh:
+            return apply_unified_diff(fh.read())
     path = os.path.join(REPO, v["file"])
     with open(path, encoding="utf-8") as fh:
         text = fh.read()
